@@ -276,7 +276,9 @@ impl<Error: Send> StreamingSoundData<Error> {
 	#[must_use]
 	pub fn num_frames(&self) -> usize {
 		if let Some((start, end)) = self.slice {
-			end - start
+			// a slice that reaches beyond the end of the audio (or is inverted)
+			// only covers the frames that actually exist
+			end.min(self.decoder.num_frames()).saturating_sub(start)
 		} else {
 			self.decoder.num_frames()
 		}
